@@ -371,10 +371,29 @@ def rule_stable_softmax(repo, rep):
                  if canon(repo.dotted(f.module, c.func) or '') ==
                  canon('numpy.fill_diagonal') and c.args and
                  ast.unparse(c.args[0]) == dname]
-        if raw and not shifted:
-          rep.refuted(R, key, site(f, e), 'soft-max computed as exp(%s) '
-                      'without the logsumexp normaliser: it underflows for '
-                      'large-scale features' % arg)
+        # any other definition of the exponentiated array that subtracts a
+        # row statistic of itself (d = d - d.min(...), d - np.max(...), ...)
+        other_shift = False
+        if dname:
+          for n in ast.walk(f.node):
+            if isinstance(n, (ast.Assign, ast.AugAssign)) and \
+                    n.lineno < e.lineno:
+              tgt = n.target if isinstance(n, ast.AugAssign) else n.targets[0]
+              if ast.unparse(tgt) == dname and any(
+                      isinstance(c_, ast.Call) and (
+                          (isinstance(c_.func, ast.Attribute) and
+                           c_.func.attr in ('min', 'max', 'amin', 'amax')) or
+                          ast.unparse(c_.func).endswith(('logsumexp',
+                                                         'softmax')))
+                      for c_ in ast.walk(n.value)):
+                other_shift = True
+        if raw and not shifts and not other_shift:
+          rep.refuted(R, key, site(f, e), 'soft-max computed as exp(%s) of '
+                      'the unshifted distances (no row minimum / logsumexp '
+                      'is subtracted from %s): every term of a row underflows '
+                      'to 0 once its smallest distance exceeds ~745, the '
+                      'normalised weights are then 0/0 (or 0/EPS) instead of '
+                      'the soft-max' % (arg, dname))
         elif raw and shifts and fills and 'logsumexp' not in src and \
                 'softmax' not in src:
           if all(sh.lineno > fills[0].lineno for sh in shifts) and \
